@@ -47,6 +47,32 @@ claim('C19',
       "PhysicalFS/filetime assumed; OverlayFS timestamps: see U09.",
       "DESIGN.md section 5, C19")
 
+claim('C08',
+      SCOPE + "Every OverlayFS method is proved to satisfy the frame ov_frame: in the upper filesystem only entries below the upper root change (lemma_frame_ok_under covers create_dir_all through ancestors of a shared filesystem), every filesystem independent of the upper one is unchanged up to access times, "
+      "and every newly issued mutating trait call (ghost mutlog of rule R5) targets the upper filesystem - unconditionally, i.e. also on every error exit. Observers (exists, metadata, read_dir, open_file, read_path; VfsPath is_file/is_dir/read_dir/walk next/read_to_string) are proved to leave the mutlog untouched and all trees equal (open_file: up to access times).",
+      "Effect frame is stated modulo access times (MemoryFS::open_file touches atime); requires at least one layer and, for operations that create the bookkeeping folder, an existing upper root in a well-formed upper filesystem. Layers that alias state without being the same Arc are outside (World::indep).",
+      "DESIGN.md section 5, C08")
+claim('C09',
+      SCOPE + "Read side proved: read_path returns the path in the first layer that has the entry iff no marker hides it (serving layer), is total for backends that do not fail, and its fallback branch is dead code; exists = visible (exact for reliable layers, Ok(true) always sound); metadata and open_file report the serving layer's entry and bytes; append_file continues the upper copy and writes through the upper handle. "
+      "Write-side clauses taken verbatim from the property text (create over a lower-only entry must fail, remove_dir with lower children must fail, type checks on remove, set_*_time on lower-only entries) are refuted by the current code: each is reproduced on the real crate (replay/src/bin/findings.rs) and reported as KNOWN-FINDING; they are checked on every run in isolated twin functions so any other breach still alarms.",
+      "read_dir union semantics (children of all layers minus markers) is not proved beyond observer/frame/hidden-bookkeeping; known findings are listed in known_findings.json.",
+      "DESIGN.md section 5, C09")
+claim('C10',
+      SCOPE + "Proved: whiteout_path(q) is exactly <upper root>/.whiteout<q>_wo (marker_path) for every canonical q; remove_file/remove_dir leave the marker in place on success and exists/read_path/metadata/open_file treat a marked path as absent; create_dir/create_file remove exactly that marker and leave a fresh empty upper entry; the root listing never shows '.whiteout' (after the fix commit). "
+      "Known finding: descendants of a removed lower directory stay visible (marker hides only the directory).",
+      "Marker persistence across unrelated later operations is covered by the per-operation frames only for entries outside the marker folder; reserved names ('.whiteout', '*_wo') are excluded as in the property.",
+      "DESIGN.md section 5, C10")
+claim('C11',
+      SCOPE + "Proved: create_dir_all (loop invariant over component boundaries) adds only directories at component prefixes, leaves every existing entry untouched and on Ok every prefix is a directory - against a backend that may fail at every call; remove_dir_all: absent path is a no-op success, everything changed lies below the path, Ok implies the path is gone, wf preserved (recursion, termination not proved); "
+      "copy_file / move_file (rule R16): an existing destination is refused with the world unchanged, Ok implies the destination holds exactly the source bytes (and for move the source is gone), only the destination (and source) entries change, same-instance fast path and generic route both covered (Arc identity token). copy_dir/move_dir are not under contract.",
+      "std::io::copy and handle writes are modelled write-through at the World level (sessions atomic, see DESIGN 4.3); fast-path trait methods assumed to meet tc_copy_file/tc_move_file.",
+      "DESIGN.md section 5, C11")
+claim('C20',
+      SCOPE + "Falls out of modularity: in every proof of U06-U09 a callee into an underlying filesystem is known only through TC, which allows Err at every call; the discharged clauses 'Ok ==> full effect' (create_dir_all, remove_dir_all, copy_file, move_file, read_to_string, get_parent, is_file/is_dir, walk next, every AltrootFS/OverlayFS method) therefore hold for every position k of a failing call and every history, "
+      "and the OverlayFS frame (never a lower layer) is unconditional. OverlayFS::exists no longer maps layer errors to Ok(false) (fix commit).",
+      "Fault kinds are the ones TC allows (any error that is not DirectoryExists/FileExists from observers); copy_dir/move_dir not covered.",
+      "DESIGN.md section 5, C20")
+
 for _pid, _why in {
     'C02': "relational against the operating system: one side of the relation (PhysicalFS/std::fs) can only be assumed, so no contract within reach decides it (DESIGN section 5, C02)",
     'C16': "quantifies over thread interleavings; Kani has no threads and Verus can only reason about its own permission-carrying lock types, which the real code does not use (DESIGN section 5, C16)",
